@@ -104,7 +104,10 @@ def coq_item(o):
         dims = "; ".join("(%s, %s)" % (cstr(d), C.czlist([label(x) for x in o[d].values])) for d in o.dims)
         return "(mkItem TDataArray [%s] [])" % dims
     if isinstance(o, xr.Dataset):
-        dims = "; ".join("(%s, %s)" % (cstr(d), C.czlist([label(x) for x in o[d].values])) for d in o.dims)
+        # the dimensions of a Dataset, for the model, are those every variable has (the per-variable guards of the Scaler and the Stacker
+        # look at each variable; the Datasets used here have equal dimension sets when they are valid)
+        dims = "; ".join("(%s, %s)" % (cstr(d), C.czlist([label(x) for x in o[d].values])) for d in o.dims
+                         if all(d in o[v].dims for v in o.data_vars))
         return "(mkItem TDataset [%s] %s)" % (dims, C.czlist([label("var:" + str(v)) for v in o.data_vars]))
     return "(mkItem %s [] [])" % pyty(o)
 
@@ -386,6 +389,10 @@ def transform_mutations(valid, which=0):
     yield "extended-feature-coord", "error", put(ext)
     if isinstance(x, xr.Dataset):
         names = list(x.data_vars)
+        vf = [q for q in x[names[-1]].dims if q != sname]
+        if len(vf) >= 2:
+            # ONE variable lacks one of its feature dimensions (the Dataset as a whole still has it through the other variables)
+            yield "missing-feature-dim:one-variable", "error", put(x.assign({names[-1]: x[names[-1]].isel({vf[-1]: 0}, drop=True)}))
         yield "dropped-variable", "error", put(x[names[:-1]])
         yield "valid:extra-variable", "result", put(x.assign(extra_var=x[names[0]] * 3.0))
         yield "renamed-variable", "error", put(x.rename({names[-1]: "renamed_var"}))
@@ -560,6 +567,9 @@ def api_calls(ctx):
         Xsur = xr.concat([X, X.isel(time=[3]).assign_coords(time=[int(X.time.values.max()) + 1])], dim="time").copy()
         Xsur.values[-1] = np.nan
         xfit("mismatched-sample-count:surplus-sample-entirely-missing:X", "error", Xsur, Y)
+        # the same with the NaN scan switched off for the OTHER field: the field that is scanned still loses its missing sample
+        xfit("mismatched-sample-count:surplus-sample-entirely-missing:X:check_nans=[True,False]", "error", Xsur, Y, check_nans=[True, False])
+        xfit("mismatched-sample-count:surplus-sample-entirely-missing:check_nans=[False,True]", "error", X, Ysur, check_nans=[False, True])
         xfit("wrong-type:numpy-X", "error", X.values, Y)
         xfit("wrong-type:None-Y", "error", X, None)
         xfit("unknown-sample-dim", "error", X, Y, dim="nope")
